@@ -160,6 +160,31 @@ def ser_get_transmission(ctx, started, file_mode):
             ctx.prove(Eq(txc.items['transmitted'], t + want_len), 'C09:O9.5.position-advances-by-chunk-length')
 
 
+@unit(name='serializer.cancelTransmisstion', relpath=SMOD, qual=['Serializer.cancelTransmisstion'], props=['C09'],
+      doc='O9.7: cancelTransmisstion(id) forgets the transfer state of id - the next getTransmissionData(id) starts a new transfer with '
+          'isFirst set (unit serializer.getTransmissionData, case started=False) - and leaves every other transfer untouched; it never raises, '
+          'whether or not a transfer to id exists')
+def ser_cancel_transmission(ctx):
+    dump = fresh_win(ctx, 'dump')
+    ser, data, B, pid = mk_ser(ctx, False, dump)
+    tid, other = NodeV(0), NodeV(1)
+    p0, p1 = FreshBool('hasTransfer'), FreshBool('otherHasTransfer')
+    t1 = FreshInt('otherTransmitted')
+    tx0 = ctx.alloc(PDict({'transmitted': FreshInt('transmitted'), 'data': dump}))
+    tx1 = ctx.alloc(PDict({'transmitted': t1, 'data': dump}))
+    ctx.setcell(ctx.cell(ser).fields[SF('transmissions')], KVDict([(p0, tid, tx0), (p1, other, tx1)]))
+    outcome, r, I = run_ser(ctx, ser, 'cancelTransmisstion', [tid])
+    ctx.prove(outcome == 'ok', 'C09:O9.7.cancel.no-exception', info=outcome)
+    if outcome != 'ok':
+        return
+    ents = lookup_tx(ctx, ser, tid)
+    ctx.prove(Not(Or(*[And(p, I.equals(k, tid)) for p, k, v in ents])), 'C09:O9.7.cancel.transfer-state-forgotten')
+    keep = [(p, k, v) for p, k, v in ents if I.equals(k, other) is True or (is_sym(I.equals(k, other)) is False and I.equals(k, other))]
+    ctx.prove(Iff(Or(*[p for p, k, v in keep]) if keep else False, p1), 'C09:O9.7.cancel.other-transfers-untouched')
+    for p, k, v in keep:
+        ctx.prove(Implies(p, Eq(ctx.cell(v).items['transmitted'], t1)), 'C09:O9.7.cancel.other-transfers-untouched')
+
+
 def _mut_last_when_short(fn):
     cnt = 0
     for n in ast.walk(fn):
